@@ -1,11 +1,916 @@
-//! (stub) binding for this area — see DESIGN.md
-use crate::util::Args;
-use anyhow::Result;
+//! Binding of spec/Fasta.tla to the real code (property C16: every successfully created archive is
+//! fully extractable, for any FASTA text).
+//!
+//! The harness only *materialises* inputs (bytes given by TLC / a seeded generator), *drives* the real
+//! code and *projects* what it observes:
+//!   create           -> "ok" | error class (Err / non-zero exit / panic: all of them are "create failed");
+//!   listing          -> the sample names (bytes);
+//!   extraction       -> per listed sample: status ok / fail and the FASTA text cut into (name, sequence)
+//!                       records (a line starting with '>' opens a record; nothing is trimmed or mapped).
+//! Whether an outcome is allowed for the input bytes is decided by TLC (spec/Trace_Fasta.tla evaluates
+//! the contract of spec/Fasta.tla on the raw bytes of the input files recorded in the events).
+//!
+//! Sub-commands
+//!   fasta-setup   the fixed reference sample and the token table of MC_Fasta (sequence tokens are
+//!                 pieces of the reference, so that a non-reference sample built from them is LZ-encoded)
+//!   replay-fasta  REPLAY: every behaviour TLC printed for MC_Fasta is (1) fed prefix by prefix to the real
+//!                 record reader (`GenomeIO`) and compared with the model's post-state, (2) created as the
+//!                 only sample and as a non-reference sample next to the reference, through the library
+//!                 call sequence (`archive::create_like_cli`) and through the real `ragc` binary
+//!   trace-fasta   TRACE: seeded random byte-level FASTA texts on top of the gen-case collections
+//!   fasta-case    (internal) one create + list + extract in a child process: a panic, an abort or a hang of
+//!                 the code under test is data / a tool error, never a crash of the driver
+use crate::archive::{create_like_cli, CreateOpts};
+use crate::gen;
+use crate::util::{self, Args};
+use anyhow::{anyhow, bail, Context, Result};
+use rand::rngs::StdRng;
+use rand::Rng;
+use ragc_core::{Decompressor, DecompressorConfig, GenomeIO};
+use serde_json::{json, Value};
+use std::io::Write;
+use std::path::{Path, PathBuf};
+use std::sync::atomic::{AtomicUsize, Ordering};
+use std::sync::Mutex;
 
-/// Returns None when `cmd` is not one of this module's sub-commands.
 pub fn dispatch(cmd: &str, a: &Args) -> Option<Result<()>> {
-    let _ = a;
     match cmd {
+        "fasta-setup" => Some(cmd_setup(a)),
+        "replay-fasta" => Some(cmd_replay(a)),
+        "trace-fasta" => Some(cmd_trace(a)),
+        "fasta-case" => Some(cmd_case(a)),
         _ => None,
     }
+}
+
+// ------------------------------------------------------------------------------------------------
+// projections
+// ------------------------------------------------------------------------------------------------
+fn bj(b: &[u8]) -> Value {
+    Value::Array(b.iter().map(|&x| json!(x)).collect())
+}
+fn jb(v: &Value) -> Vec<u8> {
+    v.as_array().map(|a| a.iter().map(|x| x.as_u64().unwrap_or(0) as u8).collect()).unwrap_or_default()
+}
+
+/// FASTA text of an extraction -> records (name = the bytes after '>' up to the LF, sequence = the
+/// bytes of the following lines without their LF).  Bytes before the first '>' line become a record
+/// with the name "?" so that nothing the code printed is hidden.
+fn cut_records(text: &[u8]) -> Vec<(Vec<u8>, Vec<u8>)> {
+    let mut out: Vec<(Vec<u8>, Vec<u8>)> = vec![];
+    for line in text.split(|&c| c == b'\n') {
+        if line.first() == Some(&b'>') {
+            out.push((line[1..].to_vec(), vec![]));
+        } else if !line.is_empty() {
+            if out.is_empty() {
+                out.push((b"?".to_vec(), vec![]));
+            }
+            out.last_mut().unwrap().1.extend_from_slice(line);
+        }
+    }
+    out
+}
+
+fn records_json(recs: &[(Vec<u8>, Vec<u8>)]) -> Value {
+    Value::Array(recs.iter().map(|(n, s)| json!({"name": bj(n), "seq": bj(s)})).collect())
+}
+
+const IUPAC: &[u8; 16] = b"ACGTNRYSWKMBDHVU";
+fn is_unknown_letter(c: u8) -> bool {
+    c.is_ascii_alphabetic() && !IUPAC.contains(&c.to_ascii_uppercase())
+}
+
+/// Features of the input measured on the raw bytes (used for the non-triviality counts only).
+fn features(files: &[Vec<u8>]) -> Value {
+    let (mut unknown, mut lower, mut crlf, mut nofinal, mut leading_blank, mut empty_rec, mut junk, mut interior_blank, mut iupac) =
+        (0usize, 0usize, 0usize, 0usize, 0usize, 0usize, 0usize, 0usize, 0usize);
+    let mut records = 0usize;
+    for f in files {
+        if !f.is_empty() && *f.last().unwrap() != b'\n' {
+            nofinal += 1;
+        }
+        let mut seen_header = false;
+        let mut cur_letters: Option<usize> = None;
+        let mut blank_pending = false;
+        for line in f.split(|&c| c == b'\n') {
+            let l: &[u8] = if line.last() == Some(&b'\r') { crlf += 1; &line[..line.len() - 1] } else { line };
+            if l.first() == Some(&b'>') {
+                if let Some(n) = cur_letters {
+                    if n == 0 {
+                        empty_rec += 1;
+                    }
+                }
+                cur_letters = Some(0);
+                seen_header = true;
+                records += 1;
+                blank_pending = false;
+            } else {
+                let letters = l.iter().filter(|c| c.is_ascii_alphabetic()).count();
+                if letters == 0 {
+                    if !seen_header && !f.is_empty() {
+                        leading_blank += 1;
+                    }
+                    if cur_letters.map(|n| n > 0).unwrap_or(false) {
+                        blank_pending = true;
+                    }
+                } else if blank_pending {
+                    interior_blank += 1;
+                    blank_pending = false;
+                }
+                junk += l.iter().filter(|c| !c.is_ascii_alphabetic()).count();
+                unknown += l.iter().filter(|&&c| is_unknown_letter(c)).count();
+                lower += l.iter().filter(|c| c.is_ascii_lowercase()).count();
+                iupac += l.iter().filter(|&&c| c.is_ascii_alphabetic() && !is_unknown_letter(c) && !b"ACGTacgt".contains(&c)).count();
+                if let Some(n) = cur_letters.as_mut() {
+                    *n += letters;
+                }
+            }
+        }
+        if cur_letters == Some(0) {
+            empty_rec += 1;
+        }
+    }
+    json!({"unknown": unknown, "lower": lower, "crlf": crlf, "nofinal": nofinal, "leading_blank": leading_blank,
+           "empty_record": empty_rec, "junk": junk, "interior_blank": interior_blank, "iupac": iupac, "records": records})
+}
+
+// ------------------------------------------------------------------------------------------------
+// one case in a child process
+// ------------------------------------------------------------------------------------------------
+struct Run {
+    code: Option<i32>,
+    stdout: Vec<u8>,
+    stderr: String,
+}
+
+fn run_bin(bin: &str, args: &[String], wd: &Path, tag: &str, limit_s: u64) -> Result<Run> {
+    let so = wd.join(format!("{}.stdout", tag));
+    let se = wd.join(format!("{}.stderr", tag));
+    let mut child = std::process::Command::new(bin)
+        .args(args)
+        .current_dir(wd)
+        .env("RUST_BACKTRACE", "0")
+        .env("TMPDIR", wd)
+        // allocator policy only (speed): every create makes ZSTD level-19 contexts of ~80 MB several times; without
+        // these glibc maps and unmaps them each time and the fresh pages dominate the run time of a tiny create
+        .env("MALLOC_MMAP_MAX_", "0")
+        .env("MALLOC_TRIM_THRESHOLD_", "4000000000")
+        .env("MALLOC_TOP_PAD_", "268435456")
+        .stdin(std::process::Stdio::null())
+        .stdout(std::fs::File::create(&so)?)
+        .stderr(std::fs::File::create(&se)?)
+        .spawn()
+        .with_context(|| format!("cannot start {}", bin))?;
+    let t0 = std::time::Instant::now();
+    let status = loop {
+        if let Some(st) = child.try_wait()? {
+            break st;
+        }
+        if t0.elapsed().as_secs() > limit_s {
+            let _ = child.kill();
+            let _ = child.wait();
+            bail!("timeout ({} s) running {} {:?}", limit_s, bin, args); // a tool error, never a verdict
+        }
+        std::thread::sleep(std::time::Duration::from_millis(if t0.elapsed().as_millis() < 300 { 2 } else { 20 }));
+    };
+    let stdout = std::fs::read(&so)?;
+    let stderr = String::from_utf8_lossy(&std::fs::read(&se)?).to_string();
+    let _ = std::fs::remove_file(&so);
+    let _ = std::fs::remove_file(&se);
+    Ok(Run { code: status.code(), stdout, stderr: tail(&stderr, 400) })
+}
+
+fn tail(s: &str, n: usize) -> String {
+    let v: Vec<char> = s.chars().collect();
+    v[v.len().saturating_sub(n)..].iter().collect()
+}
+
+fn class_of_exit(r: &Run) -> &'static str {
+    match r.code {
+        Some(0) => "ok",
+        Some(101) => "panic",
+        Some(_) => if r.stderr.contains("panicked at") { "panic" } else { "err" },
+        None => "signal",
+    }
+}
+
+/// create + list + extract through the library (the call sequence of `ragc create`, then the calls of
+/// `listset` / `getset`: Decompressor::open, list_samples, write_sample_fasta)
+fn observe_lib(c: &Value, wd: &Path, files: &[String], agc: &str) -> Result<Value> {
+    util::install_panic_hook();
+    let o = CreateOpts {
+        files: files.to_vec(),
+        out: agc.to_string(),
+        k: c["k"].as_u64().unwrap() as usize,
+        segment_size: c["seg"].as_u64().unwrap() as usize,
+        min_match: c["mm"].as_u64().unwrap() as usize,
+        threads: c["threads"].as_u64().unwrap() as usize,
+        queue_capacity: 2usize << 30,
+        fallback_frac: 0.0,
+        pack_size: c["pack"].as_u64().unwrap_or(50) as usize,
+    };
+    let (class, msg) = match util::catch(std::panic::AssertUnwindSafe(|| create_like_cli(&o))) {
+        Ok(Ok(())) => ("ok", String::new()),
+        Ok(Err(e)) => ("err", format!("{:#}", e)),
+        Err(p) => ("panic", p),
+    };
+    if class != "ok" {
+        return Ok(json!({"ev": "outcome", "kind": "error", "class": class, "msg": tail(&msg, 300), "samples": []}));
+    }
+    let open = util::catch(std::panic::AssertUnwindSafe(|| Decompressor::open(agc, DecompressorConfig { verbosity: 0 })));
+    let mut d = match open {
+        Ok(Ok(d)) => d,
+        Ok(Err(e)) => return Ok(json!({"ev": "outcome", "kind": "unreadable", "class": "ok", "msg": tail(&format!("open: {:#}", e), 300), "samples": []})),
+        Err(p) => return Ok(json!({"ev": "outcome", "kind": "unreadable", "class": "ok", "msg": tail(&format!("open panicked: {}", p), 300), "samples": []})),
+    };
+    let names = d.list_samples();
+    let mut samples = vec![];
+    for (i, n) in names.iter().enumerate() {
+        let tmp = wd.join(format!("extract_{}.fa", i));
+        let r = util::catch(std::panic::AssertUnwindSafe(|| d.write_sample_fasta(n, &tmp)));
+        let (status, msg) = match r {
+            Ok(Ok(())) => ("ok", String::new()),
+            Ok(Err(e)) => ("fail", format!("{:#}", e)),
+            Err(p) => ("fail", format!("panic: {}", p)),
+        };
+        let recs = if status == "ok" { cut_records(&std::fs::read(&tmp).unwrap_or_default()) } else { vec![] };
+        samples.push(json!({"name": bj(n.as_bytes()), "status": status, "msg": tail(&msg, 300), "records": records_json(&recs)}));
+        if status != "ok" {
+            // a failed extraction may leave the handle in any state: continue on a fresh one
+            if let Ok(Ok(nd)) = util::catch(std::panic::AssertUnwindSafe(|| Decompressor::open(agc, DecompressorConfig { verbosity: 0 }))) {
+                d = nd;
+            }
+        }
+    }
+    Ok(json!({"ev": "outcome", "kind": "archive", "class": "ok", "msg": "", "samples": samples}))
+}
+
+/// the same through the real binary: `ragc create`, `listset`, `getset` (and `listctg`, recorded as information)
+fn observe_cli(c: &Value, wd: &Path, files: &[String], agc: &str) -> Result<Value> {
+    let ragc = c["ragc"].as_str().ok_or_else(|| anyhow!("case without ragc path"))?;
+    let mut args: Vec<String> = vec!["create".into(), "-o".into(), agc.into(), "-k".into(), c["k"].to_string(), "-s".into(), c["seg"].to_string(),
+                                     "-m".into(), c["mm"].to_string(), "-t".into(), c["threads"].to_string(), "-v".into(), "0".into()];
+    if let Some(p) = c["pack"].as_u64() {
+        args.push("-l".into());
+        args.push(p.to_string());
+    }
+    args.extend(files.iter().cloned());
+    let r = run_bin(ragc, &args, wd, "create", 600)?;
+    let class = class_of_exit(&r);
+    if class != "ok" {
+        return Ok(json!({"ev": "outcome", "kind": "error", "class": class, "msg": r.stderr, "code": r.code, "samples": []}));
+    }
+    let ls = run_bin(ragc, &["listset".into(), agc.into()], wd, "listset", 300)?;
+    if ls.code != Some(0) {
+        return Ok(json!({"ev": "outcome", "kind": "unreadable", "class": "ok", "msg": format!("listset: {}", ls.stderr), "samples": []}));
+    }
+    let names: Vec<Vec<u8>> = ls.stdout.split(|&c| c == b'\n').filter(|l| !l.is_empty()).map(|l| l.to_vec()).collect();
+    let mut samples = vec![];
+    let mut listctg_disagrees = 0usize;
+    for (i, n) in names.iter().enumerate() {
+        let name = String::from_utf8_lossy(n).to_string();
+        let g = run_bin(ragc, &["getset".into(), agc.into(), "--".into(), name.clone()], wd, &format!("getset{}", i), 300)?;
+        let ok = g.code == Some(0);
+        let recs = if ok { cut_records(&g.stdout) } else { vec![] };
+        let lc = run_bin(ragc, &["listctg".into(), agc.into(), "--".into(), name.clone()], wd, &format!("listctg{}", i), 300)?;
+        let listed: Vec<Vec<u8>> = lc.stdout.split(|&c| c == b'\n').filter(|l| !l.is_empty())
+            .map(|l| l.splitn(2, |&c| c == b'\t').nth(1).unwrap_or(b"").to_vec()).collect();
+        if ok && (lc.code != Some(0) || listed != recs.iter().map(|r| r.0.clone()).collect::<Vec<_>>()) {
+            listctg_disagrees += 1;
+        }
+        samples.push(json!({"name": bj(n), "status": if ok { "ok" } else { "fail" }, "msg": if ok { String::new() } else { g.stderr.clone() },
+                            "code": g.code, "records": records_json(&recs)}));
+    }
+    Ok(json!({"ev": "outcome", "kind": "archive", "class": "ok", "msg": "", "samples": samples, "listctg_disagrees": listctg_disagrees}))
+}
+
+/// Where did the unknown letters (code 30) go?  Measured with ragc's own reader on the finished archive
+/// (information for the non-triviality counts; never part of a verdict).
+fn measure(agc: &str) -> Value {
+    let r = util::catch(std::panic::AssertUnwindSafe(|| -> Result<Value> {
+        let mut d = Decompressor::open(agc, DecompressorConfig { verbosity: 0 })?;
+        let (mut lz, mut refs, mut raw, mut lz_segs, mut ref_segs, mut raw_segs, mut rev_unknown, mut multi) = (0usize, 0usize, 0usize, 0usize, 0usize, 0usize, 0usize, 0usize);
+        for s in d.list_samples() {
+            for c in d.list_contigs(&s)? {
+                let descs = d.get_contig_segments_desc(&s, &c)?;
+                if descs.len() > 1 {
+                    multi += 1;
+                }
+                for desc in descs {
+                    let data = d.get_segment_data_by_desc(&desc)?;
+                    let u = data.iter().filter(|&&x| x >= 16).count();
+                    if desc.group_id < 16 {
+                        raw_segs += 1;
+                        raw += u;
+                    } else if desc.in_group_id == 0 {
+                        ref_segs += 1;
+                        refs += u;
+                    } else {
+                        lz_segs += 1;
+                        lz += u;
+                    }
+                    if desc.is_rev_comp && u > 0 {
+                        rev_unknown += 1;
+                    }
+                }
+            }
+        }
+        Ok(json!({"unknown_in_lz": lz, "unknown_in_ref": refs, "unknown_in_raw": raw, "lz_segments": lz_segs, "ref_segments": ref_segs,
+                  "raw_segments": raw_segs, "unknown_in_reversed": rev_unknown, "contigs_with_several_segments": multi}))
+    }));
+    match r {
+        Ok(Ok(v)) => v,
+        Ok(Err(e)) => json!({"measure_failed": tail(&format!("{:#}", e), 200)}),
+        Err(p) => json!({"measure_failed": tail(&p, 200)}),
+    }
+}
+
+fn start_event(c: &Value, raw: &[Vec<u8>], m: Value) -> Value {
+    let mut start = json!({"ev": "start", "feats": features(raw), "measure": m});
+    for k in ["id", "origin", "via", "placement", "k", "seg", "mm", "threads", "toks", "crlf", "nofinal", "kind", "mode", "b"] {
+        if !c[k].is_null() {
+            start[k] = c[k].clone();
+        }
+    }
+    start["file_names"] = Value::Array(c["files"].as_array().unwrap().iter().map(|f| f["name"].clone()).collect());
+    start
+}
+
+/// One case: {id, origin, via "lib"|"cli", placement, k, seg, mm, threads, ragc, files: [{name, bytes}]} -> its events.
+fn one_case(c: &Value, wd: &Path) -> Result<Vec<Value>> {
+    std::fs::create_dir_all(wd)?;
+    let mut files = vec![];
+    let mut raw: Vec<Vec<u8>> = vec![];
+    for f in c["files"].as_array().ok_or_else(|| anyhow!("case without files"))? {
+        let p = wd.join(f["name"].as_str().unwrap());
+        let b = jb(&f["bytes"]);
+        std::fs::write(&p, &b)?;
+        files.push(p.to_string_lossy().to_string());
+        raw.push(b);
+    }
+    let agc = wd.join("a.agc").to_string_lossy().to_string();
+    let t0 = std::time::Instant::now();
+    let mut outcome = if c["via"] == "lib" { observe_lib(c, wd, &files, &agc)? } else { observe_cli(c, wd, &files, &agc)? };
+    outcome["ms"] = json!(t0.elapsed().as_millis() as u64);
+    let m = if outcome["kind"] == "archive" { measure(&agc) } else { json!({}) };
+    let mut evs = vec![start_event(c, &raw, m)];
+    for b in &raw {
+        evs.push(json!({"ev": "file", "bytes": bj(b)}));
+    }
+    evs.push(outcome);
+    Ok(evs)
+}
+
+/// (internal) `--case F`: F = {"cases": [case, ...]}; the cases are run one after the other in this process (library
+/// cases share the process so that the allocator re-uses the big compression contexts); the events of every finished
+/// case are flushed at once, so that the parent knows which case took the process down if that happens.
+fn cmd_case(a: &Args) -> Result<()> {
+    let c: Value = serde_json::from_slice(&std::fs::read(a.get("case")?)?)?;
+    let wd = PathBuf::from(a.get("dir")?);
+    let cases: Vec<Value> = match c["cases"].as_array() {
+        Some(v) => v.clone(),
+        None => vec![c.clone()],
+    };
+    let mut out = std::fs::File::create(a.get("out")?)?;
+    for (i, c) in cases.iter().enumerate() {
+        let sub = wd.join(format!("k{}", i));
+        let evs = one_case(c, &sub)?;
+        let mut buf = Vec::new();
+        for e in &evs {
+            writeln!(buf, "{}", e)?;
+        }
+        out.write_all(&buf)?;
+        out.flush()?;
+        let _ = std::fs::remove_dir_all(&sub);
+    }
+    Ok(())
+}
+
+// ------------------------------------------------------------------------------------------------
+// running many cases in child processes
+// ------------------------------------------------------------------------------------------------
+fn crash_events(c: &Value, msg: &str) -> Vec<Value> {
+    let raw: Vec<Vec<u8>> = c["files"].as_array().unwrap().iter().map(|f| jb(&f["bytes"])).collect();
+    let mut evs = vec![start_event(c, &raw, json!({}))];
+    for b in &raw {
+        evs.push(json!({"ev": "file", "bytes": bj(b)}));
+    }
+    evs.push(json!({"ev": "outcome", "kind": "error", "class": "crash", "msg": msg, "samples": []}));
+    evs
+}
+
+/// Library cases are grouped into batches of `batch` per child process, binary cases run one per child.
+fn run_cases(cases: Vec<Value>, dir: &str, jobs: usize, batch: usize) -> Result<Vec<Vec<Value>>> {
+    std::fs::create_dir_all(dir)?;
+    let dir_abs = std::fs::canonicalize(dir)?;
+    let dir = dir_abs.to_string_lossy().to_string();
+    let dir = dir.as_str();
+    let me = std::env::current_exe()?.to_string_lossy().to_string();
+    // work items: lists of case indices; the binary cases first (they are the slow ones)
+    let mut items: Vec<Vec<usize>> = vec![];
+    for (i, c) in cases.iter().enumerate() {
+        if c["via"] != "lib" {
+            items.push(vec![i]);
+        }
+    }
+    let libs: Vec<usize> = (0..cases.len()).filter(|&i| cases[i]["via"] == "lib").collect();
+    for ch in libs.chunks(batch.max(1)) {
+        items.push(ch.to_vec());
+    }
+    let next = AtomicUsize::new(0);
+    let results: Mutex<Vec<Option<Vec<Value>>>> = Mutex::new(vec![None; cases.len()]);
+    let err: Mutex<Option<String>> = Mutex::new(None);
+    std::thread::scope(|sc| {
+        for _ in 0..jobs.max(1) {
+            sc.spawn(|| loop {
+                let w = next.fetch_add(1, Ordering::SeqCst);
+                if w >= items.len() || err.lock().unwrap().is_some() {
+                    break;
+                }
+                let r = (|| -> Result<()> {
+                    let mut todo: Vec<usize> = items[w].clone();
+                    let mut round = 0;
+                    while !todo.is_empty() {
+                        let wd = PathBuf::from(dir).join(format!("w{}_{}", w, round));
+                        round += 1;
+                        std::fs::create_dir_all(&wd)?;
+                        let cp = wd.join("case.json");
+                        std::fs::write(&cp, serde_json::to_vec(&json!({"cases": todo.iter().map(|&i| cases[i].clone()).collect::<Vec<_>>()}))?)?;
+                        let ep = wd.join("events.ndjson");
+                        let args: Vec<String> = vec!["fasta-case".into(), "--case".into(), cp.to_string_lossy().into(), "--dir".into(), wd.to_string_lossy().into(),
+                                                     "--out".into(), ep.to_string_lossy().into()];
+                        let r = run_bin(&me, &args, &wd, "child", 1800)?;
+                        let evs: Vec<Value> = std::fs::read_to_string(&ep).unwrap_or_default().lines().filter(|l| !l.trim().is_empty())
+                            .map(|l| serde_json::from_str(l)).collect::<std::result::Result<_, _>>()?;
+                        let mut done = 0usize;
+                        let mut cur: Vec<Value> = vec![];
+                        for e in evs {
+                            let is_outcome = e["ev"] == "outcome";
+                            cur.push(e);
+                            if is_outcome {
+                                results.lock().unwrap()[todo[done]] = Some(std::mem::take(&mut cur));
+                                done += 1;
+                            }
+                        }
+                        if r.code == Some(0) && done == todo.len() {
+                            todo.clear();
+                        } else if done < todo.len() && cases[todo[done]]["via"] == "lib" && !r.stderr.contains("rvh fasta-case: error")
+                            && (r.code.is_none() || r.code == Some(134) || r.code == Some(101) || r.stderr.contains("panicked") || r.stderr.contains("abort") || r.stderr.contains("overflow")) {
+                            // the library call took the whole process down (abort, stack overflow, a panic that exits the
+                            // process): this create did not succeed; the rest of the batch is run in a new process
+                            results.lock().unwrap()[todo[done]] = Some(crash_events(&cases[todo[done]], &format!("process died (code {:?}): {}", r.code, r.stderr)));
+                            todo.drain(..done + 1);
+                        } else {
+                            bail!("fasta-case {} failed (code {:?}): {}", cases[todo[done.min(todo.len() - 1)]]["id"], r.code, r.stderr);
+                        }
+                        let _ = std::fs::remove_dir_all(&wd);
+                    }
+                    Ok(())
+                })();
+                if let Err(e) = r {
+                    *err.lock().unwrap() = Some(format!("{:#}", e));
+                    break;
+                }
+            });
+        }
+    });
+    if let Some(e) = err.lock().unwrap().take() {
+        bail!("{}", e);
+    }
+    Ok(results.into_inner().unwrap().into_iter().map(|x| x.unwrap_or_default()).collect())
+}
+
+// ------------------------------------------------------------------------------------------------
+// setup: the fixed reference sample and the token table
+// ------------------------------------------------------------------------------------------------
+fn wrap(seq: &[u8], w: usize, out: &mut Vec<u8>) {
+    for c in seq.chunks(w) {
+        out.extend_from_slice(c);
+        out.push(b'\n');
+    }
+}
+
+struct Setup {
+    k: u64,
+    seg: u64,
+    mm: u64,
+    reference: Vec<u8>,
+    tokens: Vec<(String, Vec<u8>)>,
+}
+
+/// Segment spans (start, end) of the reference's first contig, from a probe archive of the reference alone: consecutive
+/// segments overlap by k symbols.  None if anything is unexpected (then default offsets are used).
+fn probe_segments(reference: &[u8], contig_len: usize, k: u64, seg: u64, mm: u64) -> Option<Vec<(usize, usize)>> {
+    let r = util::catch(std::panic::AssertUnwindSafe(|| -> Result<Vec<(usize, usize)>> {
+        let td = tempfile::tempdir()?;
+        let fa = td.path().join("r0.fa");
+        std::fs::write(&fa, reference)?;
+        let agc = td.path().join("p.agc").to_string_lossy().to_string();
+        create_like_cli(&CreateOpts { files: vec![fa.to_string_lossy().to_string()], out: agc.clone(), k: k as usize, segment_size: seg as usize,
+            min_match: mm as usize, threads: 1, queue_capacity: 2usize << 30, fallback_frac: 0.0, pack_size: 50 })?;
+        let mut d = Decompressor::open(&agc, DecompressorConfig { verbosity: 0 })?;
+        let s = d.list_samples();
+        let c = d.list_contigs(&s[0])?;
+        let descs = d.get_contig_segments_desc(&s[0], &c[0])?;
+        let mut spans = vec![];
+        let mut start = 0usize;
+        for (i, desc) in descs.iter().enumerate() {
+            let len = d.get_segment_data_by_desc(desc)?.len();
+            if i > 0 {
+                start -= k as usize;
+            }
+            spans.push((start, start + len));
+            start += len;
+        }
+        if start != contig_len {
+            bail!("segment spans do not tile the contig");
+        }
+        Ok(spans)
+    }));
+    match r {
+        Ok(Ok(v)) => Some(v),
+        _ => None,
+    }
+}
+
+fn make_setup(seed: u64, k: u64, seg: u64, mm: u64) -> Setup {
+    let mut r = util::rng(seed ^ 0xC16C16);
+    let ref1: Vec<u8> = (0..300).map(|_| b"ACGT"[r.gen_range(0..4)]).collect();
+    let ref2: Vec<u8> = (0..140).map(|_| b"ACGT"[r.gen_range(0..4)]).collect();
+    let mut reference = b">ref1\n".to_vec();
+    wrap(&ref1, 60, &mut reference);
+    reference.extend_from_slice(b">ref2 second contig\n");
+    wrap(&ref2, 70, &mut reference);
+    // SA: a piece of ref1 as it is.  SX: a piece of ref1 that covers one reference segment completely (with both its
+    // splitter k-mers intact) plus its neighbours, with unknown letters (upper and lower case) and IUPAC codes (R, y, U, n)
+    // in the MIDDLE of that segment and a lower-case stretch elsewhere: as a non-reference sample that segment has the
+    // same splitter pair as the reference's and is LZ-encoded against it.  The segment is located with a probe archive
+    // of the reference alone (fallback: fixed offsets); where the letters really went is measured on every archive.
+    let sa = ref1[30..120].to_vec();
+    let ku = k as usize;
+    let (from, to, centre) = match probe_segments(&reference, ref1.len(), k, seg, mm) {
+        Some(spans) if spans.len() >= 3 => {
+            // the longest inner segment
+            let j = (1..spans.len() - 1).max_by_key(|&j| spans[j].1 - spans[j].0).unwrap();
+            let (a, b) = spans[j];
+            if b - a >= 2 * ku + 12 {
+                (spans[j - 1].0.max(a.saturating_sub(45)), spans[j + 1].1.min(b + 45), (a + b) / 2)
+            } else {
+                (100, 200, 150)
+            }
+        }
+        _ => (100, 200, 150),
+    };
+    let mut sx = ref1[from..to].to_vec();
+    let c = centre - from;
+    for (off, ch) in [(-4i64, b'X'), (-3, b'j'), (-1, b'R'), (1, b'y'), (2, b'U'), (3, b'n'), (4, b'Z')] {
+        sx[(c as i64 + off) as usize] = ch;
+    }
+    let n = sx.len();
+    for ch in sx[n - 12..n - 4].iter_mut() {
+        *ch = ch.to_ascii_lowercase();
+    }
+    for ch in sx[2..6].iter_mut() {
+        *ch = ch.to_ascii_lowercase();
+    }
+    let tokens = vec![
+        ("H1".to_string(), b">h1".to_vec()),
+        ("H2".to_string(), b">h2 d  e".to_vec()),
+        ("HE".to_string(), b">".to_vec()),
+        ("SA".to_string(), sa),
+        ("SX".to_string(), sx),
+        ("SD".to_string(), b"12-*.".to_vec()),
+        ("BL".to_string(), vec![]),
+    ];
+    Setup { k, seg, mm, reference, tokens }
+}
+
+fn setup_json(s: &Setup) -> Value {
+    json!({"k": s.k, "seg": s.seg, "mm": s.mm, "reference": bj(&s.reference),
+           "tokens": s.tokens.iter().map(|(n, b)| json!({"name": n, "bytes": bj(b)})).collect::<Vec<_>>()})
+}
+
+fn cmd_setup(a: &Args) -> Result<()> {
+    util::install_panic_hook();
+    let s = make_setup(a.num("seed", 1u64), a.num("k", 7u64), a.num("seg", 24u64), a.num("mm", 6u64));
+    std::fs::write(a.get("out")?, serde_json::to_vec(&setup_json(&s))?)?;
+    println!("{}", json!({"tokens": s.tokens.len(), "reference_bytes": s.reference.len()}));
+    Ok(())
+}
+
+// ------------------------------------------------------------------------------------------------
+// REPLAY
+// ------------------------------------------------------------------------------------------------
+/// The real record reader on a text: Ok(records as (name, letters through the output table)) or Err.
+fn real_reader(text: &[u8]) -> std::result::Result<Vec<(Vec<u8>, Vec<u8>)>, String> {
+    let t = text.to_vec();
+    let r = util::catch(std::panic::AssertUnwindSafe(move || -> std::result::Result<Vec<(Vec<u8>, Vec<u8>)>, String> {
+        let mut g = GenomeIO::new(std::io::Cursor::new(t));
+        let mut out = vec![];
+        loop {
+            match g.read_contig_converted() {
+                Ok(Some((id, codes))) => out.push((id.into_bytes(), codes.iter().map(|&c| if c < 16 { ragc_core::CNV_NUM[c as usize] } else { b'N' }).collect())),
+                Ok(None) => return Ok(out),
+                Err(e) => return Err(format!("{}", e)),
+            }
+        }
+    }));
+    match r {
+        Ok(x) => x,
+        Err(p) => Err(format!("panic: {}", p)),
+    }
+}
+
+fn model_records(v: &Value) -> Vec<(Vec<u8>, Vec<u8>)> {
+    v.as_array().map(|a| a.iter().map(|r| (jb(&r["name"]), jb(&r["seq"]))).collect()).unwrap_or_default()
+}
+
+fn cmd_replay(a: &Args) -> Result<()> {
+    util::install_panic_hook();
+    let setup: Value = serde_json::from_slice(&std::fs::read(a.get("setup")?)?)?;
+    let ragc = a.get("ragc")?.to_string();
+    let dir = a.get("dir")?.to_string();
+    let jobs: usize = a.num("jobs", 8usize);
+    let reference = jb(&setup["reference"]);
+    let text = std::fs::read_to_string(a.get("in")?)?;
+    let behaviours: Vec<Value> = text.lines().filter(|l| !l.trim().is_empty()).map(|l| serde_json::from_str(l)).collect::<std::result::Result<_, _>>()?;
+    // (1) the record reader, prefix by prefix
+    let mut steps = 0usize;
+    let mut reader_errors = 0usize;
+    let mut reader_diverged = vec![];
+    for (bi, b) in behaviours.iter().enumerate() {
+        let mut prefix: Vec<u8> = vec![];
+        for (si, st) in b["steps"].as_array().unwrap().iter().enumerate() {
+            prefix.extend(jb(&st["raw"]));
+            steps += 1;
+            let want: Vec<_> = model_records(&st["eof"]).into_iter().filter(|r| !r.1.is_empty()).collect();
+            match real_reader(&prefix) {
+                Err(_) => reader_errors += 1,
+                Ok(got) => {
+                    let got: Vec<_> = got.into_iter().filter(|r| !r.1.is_empty()).collect();
+                    if got != want && reader_diverged.len() < 20 {
+                        reader_diverged.push(json!({"behaviour": bi, "step": si, "toks": b["toks"], "crlf": b["crlf"], "nofinal": b["nofinal"],
+                            "model": records_json(&want), "reader": records_json(&got)}));
+                    }
+                }
+            }
+        }
+        if prefix != jb(&b["bytes"]) {
+            bail!("behaviour {}: the concatenated step bytes differ from the behaviour's bytes", bi);
+        }
+    }
+    // (2) create / list / extract
+    // every behaviour goes through the library call sequence in both placements; every --cli-every'th one (and all of at
+    // most --both-upto tokens) also through the real binary
+    let both_upto: usize = a.num("both-upto", 1usize);
+    let cli_every: usize = a.num("cli-every", 3usize).max(1);
+    let mut cases = vec![];
+    for (bi, b) in behaviours.iter().enumerate() {
+        let ntok = b["toks"].as_array().map(|x| x.len()).unwrap_or(0);
+        for placement in ["solo", "nonref"] {
+            let vias: Vec<&str> = if ntok <= both_upto || bi % cli_every == 0 { vec!["lib", "cli"] } else { vec!["lib"] };
+            for via in &vias {
+                let mut files = vec![];
+                if placement == "nonref" {
+                    files.push(json!({"name": "r0.fa", "bytes": bj(&reference)}));
+                }
+                files.push(json!({"name": "t.fa", "bytes": b["bytes"]}));
+                cases.push(json!({"id": format!("b{}_{}_{}", bi, placement, via), "origin": "replay", "b": bi, "via": via, "placement": placement,
+                    "toks": b["toks"], "crlf": b["crlf"], "nofinal": b["nofinal"],
+                    "k": setup["k"], "seg": setup["seg"], "mm": setup["mm"], "threads": if bi % 2 == 0 { 1 } else { 3 }, "ragc": ragc, "files": files}));
+            }
+        }
+    }
+    let n_cases = cases.len();
+    let all = run_cases(cases, &dir, jobs, a.num("batch", 20usize))?;
+    let mut out = std::io::BufWriter::new(std::fs::File::create(a.get("events")?)?);
+    for evs in &all {
+        for e in evs {
+            writeln!(out, "{}", e)?;
+        }
+    }
+    out.flush()?;
+    println!("{}", json!({"behaviours": behaviours.len(), "steps": steps, "cases": n_cases, "reader_errors": reader_errors, "reader_diverged": reader_diverged, "fails": []}));
+    Ok(())
+}
+
+// ------------------------------------------------------------------------------------------------
+// TRACE: seeded random byte-level FASTA texts on top of the gen-case collections
+// ------------------------------------------------------------------------------------------------
+const UNKNOWN_LETTERS: &[u8] = b"EFIJLOPQXZefijlopqxz";
+const JUNK: &[u8] = b"0123456789-*.";
+
+struct TextOpts {
+    unknown_rate: f64,
+    lower: u8,         // 0 upper, 1 lower, 2 mixed
+    junk_rate: f64,
+    width: usize,      // 0 = one line
+    crlf: u8,          // 0 LF, 1 CR LF, 2 per line
+    blank_rate: f64,
+    empty_rate: f64,
+    leading_blank: usize,
+    trailing_blank: usize,
+    final_newline: bool,
+    random_headers: bool,
+    dup_header: bool,
+}
+
+fn random_header(r: &mut StdRng, prefix: &str, idx: usize) -> Vec<u8> {
+    // printable ASCII; blanks inside and around; made unique inside the file by the index
+    let mut h: Vec<u8> = prefix.as_bytes().to_vec();
+    let n = r.gen_range(1..16);
+    for i in 0..n {
+        let mut c = if r.gen_bool(0.12) { b' ' } else { r.gen_range(33..127u8) };
+        if prefix.is_empty() && i == 0 && (c == b'>' || c == b' ') {
+            c = b'c';
+        }
+        if !prefix.is_empty() && c == b'#' {
+            c = b'_';
+        }
+        h.push(c);
+    }
+    h.extend_from_slice(format!("|{}", idx).as_bytes());
+    if r.gen_bool(0.2) {
+        h.insert(0, b' ');
+    }
+    if r.gen_bool(0.2) {
+        h.extend_from_slice(b"  ");
+    }
+    h
+}
+
+/// One FASTA text for the contigs of one sample.
+fn random_text(r: &mut StdRng, contigs: &[gen::Contig], o: &TextOpts, pansn_prefix: Option<&str>) -> Vec<u8> {
+    let mut out: Vec<u8> = vec![];
+    let mut line_no = 0usize;
+    let nl = |out: &mut Vec<u8>, r: &mut StdRng, line_no: &mut usize| {
+        let cr = match o.crlf { 0 => false, 1 => true, _ => r.gen_bool(0.5) };
+        if cr {
+            out.push(b'\r');
+        }
+        out.push(b'\n');
+        *line_no += 1;
+    };
+    for _ in 0..o.leading_blank {
+        nl(&mut out, r, &mut line_no);
+    }
+    let mut idx = 0usize;
+    let empty_record = |out: &mut Vec<u8>, r: &mut StdRng, line_no: &mut usize, idx: &mut usize| {
+        out.push(b'>');
+        out.extend(random_header(r, pansn_prefix.unwrap_or(""), 9000 + *idx));
+        *idx += 1;
+        nl(out, r, line_no);
+        match r.gen_range(0..3) {
+            0 => {}
+            1 => nl(out, r, line_no),
+            _ => {
+                for _ in 0..r.gen_range(1..8) {
+                    out.push(JUNK[r.gen_range(0..JUNK.len())]);
+                }
+                nl(out, r, line_no);
+            }
+        }
+    };
+    let mut first_header: Option<Vec<u8>> = None;
+    for c in contigs {
+        if r.gen_bool(o.empty_rate) {
+            empty_record(&mut out, r, &mut line_no, &mut idx);
+        }
+        out.push(b'>');
+        let h: Vec<u8> = if o.dup_header && first_header.is_some() && r.gen_bool(0.5) {
+            first_header.clone().unwrap()
+        } else if o.random_headers {
+            random_header(r, pansn_prefix.unwrap_or(""), idx)
+        } else {
+            c.name.bytes().map(|b| if b == b'\t' { b' ' } else { b }).collect()     // (the gen-case names may hold a TAB: not printable)
+        };
+        idx += 1;
+        if first_header.is_none() {
+            first_header = Some(h.clone());
+        }
+        out.extend_from_slice(&h);
+        nl(&mut out, r, &mut line_no);
+        // the sequence as letters
+        let mut letters: Vec<u8> = Vec::with_capacity(c.seq.len());
+        for &code in &c.seq {
+            let mut ch = gen::CODE2CHAR[code as usize];
+            if r.gen_bool(o.unknown_rate) {
+                ch = UNKNOWN_LETTERS[r.gen_range(0..UNKNOWN_LETTERS.len())];
+                if r.gen_bool(0.1) {
+                    // a short run of unknown letters
+                    for _ in 0..r.gen_range(1..5) {
+                        letters.push(UNKNOWN_LETTERS[r.gen_range(0..UNKNOWN_LETTERS.len())]);
+                    }
+                }
+            }
+            let ch = match o.lower {
+                1 => ch.to_ascii_lowercase(),
+                2 => if r.gen_bool(0.5) { ch.to_ascii_lowercase() } else { ch },
+                _ => ch,
+            };
+            letters.push(ch);
+        }
+        let w = if o.width == 0 { letters.len().max(1) } else { o.width };
+        let chunks: Vec<&[u8]> = letters.chunks(w).collect();
+        for (li, chunk) in chunks.iter().enumerate() {
+            for &ch in chunk.iter() {
+                if r.gen_bool(o.junk_rate) {
+                    out.push(JUNK[r.gen_range(0..JUNK.len())]);
+                }
+                out.push(ch);
+            }
+            nl(&mut out, r, &mut line_no);
+            if li + 1 < chunks.len() && r.gen_bool(o.blank_rate) {
+                nl(&mut out, r, &mut line_no); // interior blank line
+            }
+        }
+        if r.gen_bool(o.blank_rate) {
+            nl(&mut out, r, &mut line_no); // blank line between records
+        }
+    }
+    if r.gen_bool(o.empty_rate) {
+        empty_record(&mut out, r, &mut line_no, &mut idx);
+    }
+    for _ in 0..o.trailing_blank {
+        nl(&mut out, r, &mut line_no);
+    }
+    if !o.final_newline {
+        // cut the last line terminator (LF or CR LF)
+        if out.last() == Some(&b'\n') {
+            out.pop();
+            if out.last() == Some(&b'\r') {
+                out.pop();
+            }
+        }
+    }
+    out
+}
+
+fn cmd_trace(a: &Args) -> Result<()> {
+    let seed: u64 = a.num("seed", 1u64);
+    let n: usize = a.num("cases", 40usize);
+    let jobs: usize = a.num("jobs", 8usize);
+    let ragc = a.get("ragc")?.to_string();
+    let dir = a.get("dir")?.to_string();
+    let cli_every: usize = a.num("cli-every", 3usize).max(1);
+    let kinds = ["basic", "iupac", "short", "rc", "dup", "reorder", "trunc", "basic", "iupac", "short"];
+    let mut cases = vec![];
+    for i in 0..n {
+        let mut r = util::rng(seed.wrapping_mul(7919).wrapping_add(i as u64 * 104729 + 17));
+        let kind = kinds[i % kinds.len()];
+        let single = i % 5 == 3;
+        let k = [5u64, 7, 9, 11][r.gen_range(0..4)];
+        let seg = [10u64, 16, 24, 40, 80][r.gen_range(0..5)];
+        let mm = [6u64, 8, 12, 15][r.gen_range(0..4)];
+        let go = gen::GenOpts { seed: seed * 1000 + i as u64, kind: kind.to_string(), n_samples: r.gen_range(2..5), n_chrom: r.gen_range(1..4),
+                                chrom_len: [120usize, 250, 400, 700][r.gen_range(0..4)], pansn: single };
+        let samples = gen::generate(&go);
+        let crlf = [0u8, 0, 1, 2][r.gen_range(0..4)];
+        let unknown_rate = [0.0, 0.004, 0.015, 0.05][r.gen_range(0..4)];
+        let mut files = vec![];
+        let mut single_text: Vec<u8> = vec![];
+        for (si, s) in samples.iter().enumerate() {
+            let o = TextOpts {
+                unknown_rate: if r.gen_bool(0.8) { unknown_rate } else { 0.0 },
+                lower: r.gen_range(0..3),
+                junk_rate: [0.0, 0.0, 0.01, 0.05][r.gen_range(0..4)],
+                width: [0usize, 1, 7, 30, 60, 80][r.gen_range(0..6)],
+                crlf,
+                blank_rate: [0.0, 0.05, 0.3][r.gen_range(0..3)],
+                empty_rate: [0.0, 0.15, 0.5][r.gen_range(0..3)],
+                leading_blank: if single && si > 0 { 0 } else { [0usize, 0, 1, 3][r.gen_range(0..4)] },
+                trailing_blank: [0usize, 0, 1, 2][r.gen_range(0..4)],
+                final_newline: if single && si + 1 < samples.len() { true } else { r.gen_bool(0.6) },
+                random_headers: r.gen_bool(0.5),
+                dup_header: r.gen_bool(0.06),
+            };
+            let prefix = format!("{}#", s.name);
+            let t = random_text(&mut r, &s.contigs, &o, if single { Some(&prefix) } else { None });
+            if single {
+                single_text.extend(t);
+            } else {
+                files.push(json!({"name": format!("{}.fa", s.name), "bytes": bj(&t)}));
+            }
+        }
+        if single {
+            files.push(json!({"name": "pansn.fa", "bytes": bj(&single_text)}));
+        }
+        cases.push(json!({"id": format!("t{}_{}_{}", i, kind, if single { "single" } else { "multi" }), "origin": "trace", "via": if i % cli_every == 0 { "cli" } else { "lib" },
+            "placement": if single { "single" } else { "multi" }, "kind": kind, "mode": if single { "single" } else { "multi" },
+            "k": k, "seg": seg, "mm": mm, "threads": r.gen_range(1..5), "ragc": ragc, "files": files}));
+    }
+    let all = run_cases(cases, &dir, jobs, a.num("batch", 8usize))?;
+    let mut out = std::io::BufWriter::new(std::fs::File::create(a.get("out")?)?);
+    let mut bytes = 0usize;
+    for evs in &all {
+        for e in evs {
+            if e["ev"] == "file" {
+                bytes += e["bytes"].as_array().map(|x| x.len()).unwrap_or(0);
+            }
+            writeln!(out, "{}", e)?;
+        }
+    }
+    out.flush()?;
+    println!("{}", json!({"cases": all.len(), "input_bytes": bytes}));
+    Ok(())
 }
